@@ -33,7 +33,7 @@ PROPS = {
         "assumptions": ["Stream.tla is a faithful transcription of ISO/IEC 16022 5.2 (validated by MC_Codec and the golden vectors)"],
     },
     "C11": {
-        "level_text": 'Every outcome of every encoding entry point is an event; the trace specification has no action for panic/hang, and ties ListEmpty to the empty list; both build profiles. Beyond the logged cases the generator executes 250 000 (thorough: 3 000 000) further encoder calls per profile on random inputs shaped like the planner's corner cases; a call is logged (and then judged by TLC) only if it panicked - evidence key `evaluations` counts them.',
+        "level_text": 'Every outcome of every encoding entry point is an event; the trace specification has no action for panic/hang, and ties ListEmpty to the empty list; both build profiles. Beyond the logged cases the generator executes 250 000 (thorough: 3 000 000) further encoder calls per profile on random inputs shaped like the corner cases of the planner; a call is logged (and then judged by TLC) only if it panicked - evidence key `evaluations` counts them.',
         "level_note": 'Trusts: catch_unwind + 20 s watchdog observe all panics/hangs.',
         "jobs": [enc_job("C11", ("release", "checked"))],
         "rule": "as C01 over all 64 mode sets, empty/singleton/pair lists, ECI numbers, both build profiles; non-trivial = distinct "
